@@ -191,3 +191,34 @@ func dump(files []File) string {
 	}
 	return sb.String()
 }
+
+// TestFocus checks that aimed mutations land inside the focus and report where they inserted text.
+func TestFocus(t *testing.T) {
+	imp := importer.ForCompiler(token.NewFileSet(), "source", nil)
+	files := []File{{Name: "tricky.go", Src: []byte(tricky)}}
+	lo := strings.Index(tricky, "x, ok := m[s]")
+	hi := lo + len("x, ok := m[s]")
+	focus := func(file string, s, e int) bool { return s < hi && e >= lo }
+	rapid.Check(t, func(rt *rapid.T) {
+		kind := []Kind{Comment, CommentExpr, NewlineExpr, Paren}[rapid.IntRange(0, 3).Draw(rt, "kind")]
+		out, m, err := ApplyAt(files, kind, func(k int) int { return rapid.IntRange(0, k-1).Draw(rt, "pick") }, imp, focus)
+		if err != nil {
+			rt.Skip()
+		}
+		if len(m.Inserted) == 0 {
+			rt.Fatalf("no insertion recorded for %+v", m)
+		}
+		for _, in := range m.Inserted {
+			if in[0] < lo || in[0] > hi {
+				rt.Fatalf("%s inserted at %d, outside the focus [%d,%d]", kind, in[0], lo, hi)
+			}
+		}
+		total := 0
+		for _, in := range m.Inserted {
+			total += in[1]
+		}
+		if len(out[0].Src) != len(files[0].Src)+total {
+			rt.Fatalf("recorded insertions (%d bytes) do not explain the size change %d", total, len(out[0].Src)-len(files[0].Src))
+		}
+	})
+}
